@@ -248,7 +248,7 @@ PROPS["C08"] = dict(
     ],
     rule="every rank 0..N of each tuple is one (tuple, rank) pair. exh: ALL tuples of 1..3 sorted "
          "sequences of length 1..4 over {0,1,2} (40494 tuples; thorough adds all 130321 tuples of 4 "
-         "sequences of length 1..3); rand: m in 1..10, lengths dense 1..9 / around powers of two / very "
+         "sequences of length 1..3); rand: m in 1..10 (one tuple in eight: 17..64 sequences, often of length 1..2), lengths dense 1..9 / around powers of two / very "
          "unequal (1-2 vs 150-250) / 1..40, value universe 1..100000 (mostly 1..4), ascending and "
          "descending, plain ints and a key+tag struct ordered by key only. Partition results are compared "
          "with the split induced by (value, sequence, position); selection with merged[rank] and its "
@@ -256,7 +256,8 @@ PROPS["C08"] = dict(
          "counters.pairs_with_tie_across_split; classes are (m, length mode, universe, order) / blocks.",
     exhaustive=dict(quick="all tuples with m<=3, lengths 1..4, values {0,1,2}, every rank",
                     thorough="as quick plus all tuples with m=4, lengths 1..3, values {0,1,2}, every rank"),
-    require=dict(any=["tuple_rank_pairs", "pairs_with_tie_across_split", "exhaustive_tuples"]),
+    require=dict(any=["tuple_rank_pairs", "pairs_with_tie_across_split", "exhaustive_tuples",
+                      "tuples_with_more_than_16_sequences"]),
     assumptions=["brute-force merge by (value, sequence index, position) is the specification of the split",
                  SAN_ASSUME],
 )
